@@ -194,7 +194,7 @@ T('C14', 'twin-enu-temps', OC, "        enu.E = -x * slon + y * clon\n        en
 # ---------------------------------------------------------------- C15
 M('C15', 'window-not-centred', OPS, "                val = track.getObsAnalyticalFeature(af_input, i - j + D)", "                val = track.getObsAnalyticalFeature(af_input, i - j + D + 1)", None)
 M('C15', 'boundary-range', OPS, "            for i in range(track.size() - D, track.size()):\n                temp[i] = track.getObsAnalyticalFeature(af_input, i)\n\n        addListToAF(track, af_output, temp)\n        return temp\n\n\nclass Filter_FFT", "            for i in range(track.size() - D + 1, track.size()):\n                temp[i] = track.getObsAnalyticalFeature(af_input, i)\n\n        addListToAF(track, af_output, temp)\n        return temp\n\n\nclass Filter_FFT", 'C15.G')
-M('C15', 'even-accepted', OPS, "        if N % 2 == 0:\n            raise KernelError(\n                \"Error: kernel must contain an odd number of values in '\"\n                + type(self).__name__\n                + \"' operator\"\n            )\n        track.createAnalyticalFeature(af_output)\n        temp = [0] * track.size()\n        D = (int)(N / 2)", "        if N % 2 == 3:\n            raise KernelError(\n                \"Error: kernel must contain an odd number of values in '\"\n                + type(self).__name__\n                + \"' operator\"\n            )\n        track.createAnalyticalFeature(af_output)\n        temp = [0] * track.size()\n        D = (int)(N / 2)", 'C15.E', count=2)
+M('C15', 'even-accepted', OPS, "        if N % 2 == 0:\n            raise KernelError(\n                \"Error: kernel must contain an odd number of values in '\"\n                + type(self).__name__\n                + \"' operator\"\n            )\n        track.createAnalyticalFeature(af_output)\n        temp = [0] * track.size()\n        D = (int)(N / 2)", "        if N % 2 == 3:\n            raise KernelError(\n                \"Error: kernel must contain an odd number of values in '\"\n                + type(self).__name__\n                + \"' operator\"\n            )\n        track.createAnalyticalFeature(af_output)\n        temp = [0] * track.size()\n        D = (int)(N / 2)", 'C15.G', count=2)
 M('C15', 'seq-y-from-x', FIL, "            if af == \"y\":\n                track.setYFromAnalyticalFeature(\"temp\")", "            if af == \"y\":\n                track.setXFromAnalyticalFeature(\"temp\")", 'C15.G')
 T('C15', 'twin-filter-loop', OPS, "                temp[i] += val * kernel[j]\n                norm += kernel[j]", "                weight = kernel[j]\n                norm = norm + weight\n                temp[i] = temp[i] + weight * val")
 
